@@ -123,8 +123,9 @@ Qed.
 Lemma float_from_go_safe orc k v : safe (float_from_go orc k v).
 Proof.
   unfold float_from_go. apply safe_bind; auto.
-  - destruct v; cbn; auto; match goal with |- context[match ?c with Some _ => _ | None => _ end] => destruct c end; cbn; auto.
-  - intros a _. destruct k; cbn; auto. destruct (f32_out_of_range a); cbn; auto.
+  - destruct v; cbn; auto.
+  - intros a _. destruct k; cbn; auto;
+      match goal with |- context[match ?c with Some _ => _ | None => _ end] => destruct c end; cbn; auto.
 Qed.
 
 Lemma scalar_from_go_safe orc k v : safe (scalar_from_go orc k v).
